@@ -299,9 +299,14 @@ def rule_one_path(ctx, px):
            f"other answers: {bad}; kinds {sorted(kinds)}", fo.node.lineno)
     bfs = px.func(NS, "Namespace._bfs_search_for_output_path")
     b0 = _params(bfs)[0]
-    rets = _returns(bfs.node)
-    ok = bool(rets) and all(isinstance(r, ast.Subscript) and isinstance(r.value, ast.Attribute) and r.value.attr == "_data_type_to_outputs" and
-                            isinstance(r.slice, ast.Name) and r.slice.id == b0 for r in rets)
+    rets = [pyfront.subst_locals(bfs.node, r) for r in _returns(bfs.node)]      # `p = ns._map.get(t); if p is not None: return p`
+
+    def _stored(r):
+        if isinstance(r, ast.Subscript) and isinstance(r.value, ast.Attribute) and r.value.attr == "_data_type_to_outputs" and isinstance(r.slice, ast.Name) and r.slice.id == b0:
+            return True
+        return isinstance(r, ast.Call) and isinstance(r.func, ast.Attribute) and r.func.attr == "get" and isinstance(r.func.value, ast.Attribute) \
+            and r.func.value.attr == "_data_type_to_outputs" and len(r.args) == 1 and isinstance(r.args[0], ast.Name) and r.args[0].id == b0
+    ok = bool(rets) and all(_stored(r) for r in rets)
     last = bfs.node.body[-1]
     ok = ok and isinstance(last, ast.Raise)
     ctx.ob(R, bfs.module.rel, f"{bfs.short} :: returns the stored path of the requested type or raises (total or loud)", ok, "", bfs.node.lineno)
